@@ -421,7 +421,12 @@ func visitInstr(fr *frame, instr ssa.Instruction) continuation {
 			panic(fmt.Sprintf("unexpected x type in IndexAddr: %T", x))
 		}
 		if s, ok := idx.(sym); ok {
-			fr.set(instr, symref{elems: elems, idx: s})
+			r := symref{elems: elems, idx: s}
+			if onlyLoaded(instr) {
+				fr.set(instr, r)
+			} else {
+				fr.set(instr, r.resolve(i))
+			}
 		} else {
 			fr.set(instr, &elems[asInt64(idx)])
 		}
@@ -629,6 +634,12 @@ func callSSA(i *interpreter, caller *frame, callpos token.Pos, fn *ssa.Function,
 		if fn.Blocks == nil {
 			if fn.Synthetic == "package initializer" || fn.Name() == "init" {
 				return nil
+			}
+			// assembly-backed function with a pure Go twin (math/big: addVV -> addVV_g)
+			if fn.Pkg != nil {
+				if g := fn.Pkg.Func(fn.Name() + "_g"); g != nil && g.Blocks != nil {
+					return callSSA(i, caller, callpos, g, args, nil)
+				}
 			}
 			panic(engineError{"no code for function: " + info.name + callerChain(caller)})
 		}
